@@ -6,3 +6,4 @@ pub mod names;
 pub mod render;
 pub mod run;
 pub mod tree;
+pub mod hir;
